@@ -51,14 +51,43 @@ def variant_const_table(v, ret_local=0):
     return table
 
 
+def find_helpers(crate, main):
+    """The private helpers are found by role, not by name: `order` is the function handed to the sort,
+    `rec` the local function that receives the list (its first parameter is a slice of ValueKind and it
+    calls itself), `single` the local function rec applies to one element (ValueKind -> &str)."""
+    if main is None:
+        return None, None, None
+    v = View(main)
+    order = rec = single = None
+    for bb, c in v.calls():
+        if c.fn is None:
+            continue
+        if c.name in ("sort_by_key", "sort_by_cached_key", "sort_unstable_by_key") and len(v.blocks[bb]["term"]["args"]) > 1:
+            key = v.origin(v.blocks[bb]["term"]["args"][1])
+            if key[0] == "fnconst":
+                order = body(crate, key[1]) or order
+        if c.krate == "deserr" and body(crate, c.path) is not None:
+            b = body(crate, c.path)
+            bv = View(b)
+            if any(c2.fn is not None and c2.path == c.path for _, c2 in bv.calls()):
+                rec = b
+    if rec is not None:
+        rv = View(rec)
+        for bb, c in rv.calls():
+            if c.fn is not None and c.krate == "deserr" and c.path != rec.path and body(crate, c.path) is not None:
+                b = body(crate, c.path)
+                sv = View(b)
+                if variant_const_table(sv) is not None:
+                    single = b
+    return order, single, rec
+
+
 def run(ctx):
     res = PropResult("C17")
     res.level = "other"
     crate = ctx.libcrate("deserr")
     main = body(crate, BASE)
-    order = body(crate, BASE + "::order")
-    single = body(crate, BASE + "::single_description")
-    rec = body(crate, BASE + "::description_rec")
+    order, single, rec = find_helpers(crate, main)
     if not all((main, order, single, rec)):
         res.add("C17.CANON", 1, [Finding("C17.CANON", BASE, "value_kinds_description_json or one of its helpers was not found", "")])
         return res
@@ -79,7 +108,7 @@ def run(ctx):
     own = [bb for bb, c in calls if call_name(v, ("call", bb)) == "std::borrow::ToOwned::to_owned" and strip_refs(canon(v, v.origin(v.blocks[bb]["term"]["args"][0]))) == ("param", 1)]
     sorts = [bb for bb, c in calls if c.name in ("sort_by_key", "sort", "sort_unstable", "sort_unstable_by_key", "sort_by", "sort_by_cached_key")]
     dedups = [bb for bb, c in calls if c.name in ("dedup", "dedup_by_key", "dedup_by")]
-    recs = [bb for bb, c in calls if c.path == BASE + "::description_rec"]
+    recs = [bb for bb, c in calls if c.path == rec.path]
     if len(own) != 1 or len(sorts) != 1 or len(dedups) != 1 or len(recs) != 1:
         fs.append(fnd("C17.CANON", v, "expected copy -> sort_by_key(order) -> dedup -> description_rec (found %d/%d/%d/%d)" % (len(own), len(sorts), len(dedups), len(recs))))
     else:
@@ -96,7 +125,7 @@ def run(ctx):
             fs.append(fnd("C17.CANON", v, "the copy is not sorted with sort_by_key", s))
         else:
             key = v.origin(v.blocks[s]["term"]["args"][1])
-            if not (key[0] == "fnconst" and key[1] == BASE + "::order"):
+            if not (key[0] == "fnconst" and key[1] == order.path):
                 fs.append(fnd("C17.CANON", v, "the sort key is not the rank function `order`", s))
         if v.callee(d).name != "dedup" or not on_copy(d):
             fs.append(fnd("C17.CANON", v, "the sorted copy is not deduplicated with dedup()", d))
@@ -172,7 +201,7 @@ def run(ctx):
     # ---- PROGRESS: every recursive call passes a strict suffix of its own slice
     rv = View(rec)
     fs = []
-    rcs = [bb for bb, c in rv.calls() if c.fn is not None and c.path == BASE + "::description_rec"]
+    rcs = [bb for bb, c in rv.calls() if c.fn is not None and c.path == rec.path]
     ob = max(1, len(rcs))
     if not rcs:
         fs.append(fnd("C17.PROGRESS", rv, "description_rec is not recursive any more: cannot establish coverage of the list"))
@@ -225,7 +254,7 @@ def run(ctx):
 RANK = ["Null", "Boolean", "Integer", "NegativeInteger", "Float", "String", "Sequence", "Map"]
 
 
-def extract_rec_table(rv):
+def extract_rec_table(rv, single_path="::single_description"):
     from analysis import strip_refs
     from loc import canon, call_name
     leaves = []
@@ -260,7 +289,7 @@ def extract_rec_table(rv):
                     a = strip_refs(m[3][0])
                     if a[0] == "const":
                         msg = ("const", a[2])
-                    elif a[0] == "call" and rv.callee(a[1]).path.endswith("single_description"):
+                    elif a[0] == "call" and rv.callee(a[1]).path.endswith(single_path):
                         e = strip_refs(a[3][0])
                         if e[0] == "constindex" and not e[3]:
                             msg = ("single", e[2])
@@ -345,12 +374,12 @@ def expected_row(lst):
 def table_rule(ctx, res):
     from lin import Finding
     crate = ctx.libcrate("deserr")
-    rec = body(crate, BASE + "::description_rec")
-    if rec is None:
+    _order, single, rec = find_helpers(crate, body(crate, BASE))
+    if rec is None or single is None:
         res.add("C17.TABLE", 1, [Finding("C17.TABLE", "description_rec", "not found", "")])
         return
     rv = View(rec)
-    leaves = extract_rec_table(rv)
+    leaves = extract_rec_table(rv, single.path)
     fs = []
     n = 0
     bad = []
@@ -396,4 +425,305 @@ def run(ctx):  # noqa: F811
                                  "the merging table ('a number' / 'an integer' / single names, and how many elements each step consumes) is decided by C17.TABLE; only the joining punctuation (', ', ' or ', ', or ') is run-time string building and is not decided") for a in res.assumptions]
     res.explanation += (" TABLE: the decision table of description_rec's slice patterns is extracted by a symbolic walk (length interval, variant sets of the first elements) and must give, "
                         "for each of the 256 canonical lists, exactly the phrase and the number of consumed kinds the statement prescribes ([Int,NegInt,Float] / [Int,Float] / [NegInt,Float] -> 'a number'; [Int,NegInt] -> 'an integer'; else the single name).")
+    return res
+
+
+# ---------------------------------------------------------------------------------------------
+# C17.JOIN — "joined as 'a', 'a or b', 'a, b, or c'": the joiner decision table of description_rec.
+# After the (phrase, rest) pair of one step is known, the text appended to the message depends on
+# (rest is empty?, number of items already written) only.  A symbolic walk over those two facts
+# (count classes 0 / 1 / >=2) collects, per case, the pieces appended, the counter updates and the
+# recursive call; they must equal the table the statement prescribes:
+#     last item   : 0 -> phrase      1 -> " or " phrase     >=2 -> ", or " phrase
+#     other items : 0 -> phrase      >=1 -> ", " phrase ;  counter += 1 ; recurse(rest, counter, message)
+# and the entry point starts with counter 0 and a fresh message that it returns.
+CLASSES = ("0", "1", "2+")
+
+
+def _class_split(op, c, classes):
+    """(classes where `count <op> c` is true, classes where false) or None when not decidable on the abstraction"""
+    def holds(cl):
+        # returns True / False / None (mixed)
+        if cl == "0":
+            vals = [0]
+        elif cl == "1":
+            vals = [1]
+        else:
+            vals = [2, 3, 1000]
+        rs = set()
+        for x in vals:
+            rs.add({"Eq": x == c, "Ne": x != c, "Lt": x < c, "Le": x <= c, "Gt": x > c, "Ge": x >= c}[op])
+        return rs.pop() if len(rs) == 1 else None
+    t, f = set(), set()
+    for cl in classes:
+        h = holds(cl)
+        if h is None:
+            return None
+        (t if h else f).add(cl)
+    return t, f
+
+
+def join_rule(ctx, res):
+    import strterm
+    crate = ctx.libcrate("deserr")
+    main = body(crate, BASE)
+    _order, single, rec = find_helpers(crate, main)
+    rule = "C17.JOIN"
+    if main is None or rec is None:
+        res.add(rule, 1, [Finding(rule, BASE, "description_rec not found", "")])
+        return
+    rv = View(rec)
+    fs = []
+    # the (phrase, rest) pair: local T assigned tuple aggregates; M = T.0, R = T.1
+    T = None
+    for bb in sorted(rv.reach):
+        for st in rv.blocks[bb]["stmts"]:
+            if st["k"] == "assign" and st["rv"]["k"] == "agg" and st["rv"]["ak"] == "tuple" and len(st["rv"]["ops"]) == 2 and not st["place"]["p"]:
+                if rv.b.ltys(st["place"]["l"]).startswith("(std::string::String"):
+                    T = st["place"]["l"]
+    if T is None:
+        res.add(rule, 1, [fnd(rule, rv, "cannot find the (phrase, rest) pair of one step: cannot establish the joiner table")])
+        return
+    M = R = None
+    start = None
+    for bb in sorted(rv.reach):
+        for st in rv.blocks[bb]["stmts"]:
+            if st["k"] == "assign" and st["rv"]["k"] == "use" and st["rv"]["op"]["k"] in ("move", "copy") and not st["place"]["p"]:
+                pl = st["rv"]["op"]["place"]
+                if pl["l"] == T and len(pl["p"]) == 1 and pl["p"][0]["k"] == "field":
+                    if pl["p"][0]["i"] == 0:
+                        M = st["place"]["l"]
+                        start = bb if start is None else start
+                    elif pl["p"][0]["i"] == 1:
+                        R = st["place"]["l"]
+    if M is None or R is None or start is None:
+        res.add(rule, 1, [fnd(rule, rv, "cannot find the phrase / rest bindings: cannot establish the joiner table")])
+        return
+
+    def is_msg(t):
+        t = strip_refs(t)
+        return t in (("multi", M), ("local", M)) or (t[0] == "field" and strip_refs(t[1]) in (("multi", T), ("local", T)) and str(t[-1]) == "0") or \
+            term_mentions(t, lambda y: isinstance(y, tuple) and len(y) == 2 and y[0] in ("multi", "local") and y[1] == M)
+
+    def is_rest(t):
+        t = strip_refs(t)
+        return t in (("multi", R), ("local", R)) or (t[0] == "field" and strip_refs(t[1]) in (("multi", T), ("local", T)) and str(t[-1]) == "1")
+
+    def is_count_place(pl):
+        return pl["l"] == 2 and len(pl["p"]) == 1 and pl["p"][0]["k"] == "deref"
+
+    results = {}   # (empty, class) -> list of path summaries
+    problems = []
+
+    def record(empty, classes, summ):
+        for e in ([True, False] if empty is None else [empty]):
+            for cl in classes:
+                results.setdefault((e, cl), []).append(summ)
+
+    def walk(bb, empty, classes, pieces, incr, rec_calls, depth, seen):
+        if depth > 200 or (bb, empty, tuple(sorted(classes))) in seen:
+            problems.append("loop in the joiner logic")
+            return
+        seen = seen | {(bb, empty, tuple(sorted(classes)))}
+        blk = rv.blocks[bb]
+        pieces = list(pieces)
+        for st in blk["stmts"]:
+            if st["k"] == "assign" and is_count_place(st["place"]):
+                # (*count) = move tmp.0 where tmp = AddWithOverflow(copy *count, const 1)   |  (*count) = Add(..)
+                t = canon(rv, rv.origin_rv(st["rv"], bb))
+                ok = False
+                tt = t
+                if tt[0] == "field" and tt[1][0] == "binop":
+                    tt = tt[1]
+                if tt[0] == "binop" and tt[1] in ("AddWithOverflow", "Add", "AddUnchecked"):
+                    a, b2 = strip_refs(tt[2]), strip_refs(tt[3])
+                    if b2[0] == "const" and b2[2] == 1 and a[0] == "deref" and strip_refs(a[1]) == ("param", 2):
+                        ok = True
+                    elif b2[0] == "const" and b2[2] == 1 and a == ("param", 2):
+                        ok = True
+                if ok and rec_calls == 0:
+                    incr += 1
+                else:
+                    problems.append("the item counter is changed by something else than `+= 1` before the recursive call (%s)" % fmt(t))
+        t = blk["term"]
+        if t["k"] == "return":
+            record(empty, classes, (tuple(pieces), incr, rec_calls))
+            return
+        if t["k"] == "switch":
+            info = rv.switch_info(bb)
+            src = info.get("src")
+            if info["kind"] == "bool" and src is not None and src["k"] == "callresult":
+                cb = src["bb"]
+                c = rv.callee(cb)
+                if c.fn is not None and c.name == "is_empty" and is_rest(canon(rv, rv.origin(rv.blocks[cb]["term"]["args"][0]))):
+                    for val in (True, False):
+                        if empty is None or empty == val:
+                            walk(rv.edge_target(info, val), val, classes, pieces, incr, rec_calls, depth + 1, seen)
+                    return
+            if info["kind"] == "bool" and src is not None and src["k"] == "binop" and src["op"] in ("Eq", "Ne", "Lt", "Le", "Gt", "Ge"):
+                a = strip_refs(canon(rv, rv.origin(src["a"])))
+                b2 = strip_refs(canon(rv, rv.origin(src["b"])))
+                if (a == ("param", 2) or (a[0] == "deref" and strip_refs(a[1]) == ("param", 2))) and b2[0] == "const" and isinstance(b2[2], int):
+                    sp = _class_split(src["op"], b2[2], classes)
+                    if sp is None:
+                        problems.append("the joiner depends on the item counter beyond 0 / 1 / more (compared with %s)" % b2[2])
+                        return
+                    tcs, fcs = sp
+                    if tcs:
+                        walk(rv.edge_target(info, True), empty, tcs, pieces, incr, rec_calls, depth + 1, seen)
+                    if fcs:
+                        walk(rv.edge_target(info, False), empty, fcs, pieces, incr, rec_calls, depth + 1, seen)
+                    return
+            if info["kind"] == "int" and t["discr"]["k"] in ("copy", "move"):
+                dt = strip_refs(canon(rv, rv.origin(t["discr"])))
+                if dt == ("param", 2) or (dt[0] == "deref" and strip_refs(dt[1]) == ("param", 2)):
+                    left = set(classes)
+                    for lb, tgt in info["edges"]:
+                        if lb is None:
+                            continue
+                        cl = "0" if lb == 0 else "1" if lb == 1 else None
+                        if cl is None:
+                            problems.append("the joiner depends on the item counter beyond 0 / 1 / more (value %s)" % lb)
+                            return
+                        if cl in left:
+                            left.discard(cl)
+                            walk(tgt, empty, {cl}, pieces, incr, rec_calls, depth + 1, seen)
+                    if left:
+                        walk(t["otherwise"], empty, left, pieces, incr, rec_calls, depth + 1, seen)
+                    return
+            problems.append("the joiner logic branches on something else than `rest.is_empty()` and the item counter (%s)" % blk["term"].get("at", ""))
+            return
+        if t["k"] == "call":
+            c = rv.callee(bb)
+            nm = call_name(rv, ("call", bb)) or ""
+            args = t["args"]
+            a0 = strip_refs(canon(rv, rv.origin(args[0]))) if args else None
+            on_message = a0 is not None and (a0 == ("param", 3) or (a0[0] == "deref" and strip_refs(a0[1]) == ("param", 3)))
+            if c.fn is not None and c.path == rec.path:
+                ok = len(args) == 3 and is_rest(canon(rv, rv.origin(args[0])))
+                a1 = strip_refs(canon(rv, rv.origin(args[1])))
+                a2 = strip_refs(canon(rv, rv.origin(args[2])))
+                ok = ok and (a1 == ("param", 2) or (a1[0] == "deref" and strip_refs(a1[1]) == ("param", 2)))
+                ok = ok and (a2 == ("param", 3) or (a2[0] == "deref" and strip_refs(a2[1]) == ("param", 3)))
+                if not ok:
+                    problems.append("the recursive call is not (rest, item counter, message)")
+                rec_calls += 1
+            elif on_message and nm in ("std::string::String::push_str", "std::ops::AddAssign::add_assign", "std::string::String::push"):
+                if rec_calls:
+                    problems.append("text is appended after the rest of the list was described")
+                ps = strterm.pieces(rv, deep_local(rv, rv.origin(args[1])))
+                if ps is None:
+                    problems.append("cannot read what is appended to the message at %s" % t.get("at", ""))
+                    ps = [("val", ("?",))]
+                for p in ps:
+                    if p[0] == "val":
+                        pieces.append(("MSG",) if is_msg(p[1]) else ("val", fmt(p[1])))
+                    else:
+                        pieces.append(p)
+            elif on_message:
+                problems.append("the message is handed to %s: cannot establish the joiner table" % nm)
+            nxt = t.get("target")
+            if nxt is None:
+                return
+            walk(nxt, empty, classes, pieces, incr, rec_calls, depth + 1, seen)
+            return
+        for s in rv.succ[bb]:
+            walk(s, empty, classes, pieces, incr, rec_calls, depth + 1, seen)
+
+    walk(start, None, set(CLASSES), [], 0, 0, 0, frozenset())
+    for p in sorted(set(problems))[:4]:
+        fs.append(fnd(rule, rv, p))
+
+    def merged(ps):
+        out = []
+        for p in ps:
+            if p[0] == "lit" and out and out[-1][0] == "lit":
+                out[-1] = ("lit", out[-1][1] + p[1])
+            else:
+                out.append(p)
+        return tuple(out)
+    want = {
+        (True, "0"): (("MSG",),), (True, "1"): (("lit", " or "), ("MSG",)), (True, "2+"): (("lit", ", or "), ("MSG",)),
+        (False, "0"): (("MSG",),), (False, "1"): (("lit", ", "), ("MSG",)), (False, "2+"): (("lit", ", "), ("MSG",)),
+    }
+    table = {}
+    if not problems:
+        for key, w in want.items():
+            got = results.get(key, [])
+            summ = set((merged(p), i, r) for p, i, r in got)
+            if len(summ) != 1:
+                fs.append(fnd(rule, rv, "case (rest empty=%s, items written=%s) has %d different outcomes: cannot establish the joiner table" % (key[0], key[1], len(summ))))
+                continue
+            p, i, r = next(iter(summ))
+            table["%s/%s" % ("last" if key[0] else "more", key[1])] = {"appended": [x[1] if x[0] == "lit" else "<phrase>" for x in p], "counter+=": i, "recurse": r}
+            if p != w:
+                def show(ps):
+                    return "".join(x[1] if x[0] == "lit" else "<phrase>" if x[0] == "MSG" else "<%s>" % x[1] for x in ps)
+                fs.append(fnd(rule, rv, "%s item after %s written item(s) is appended as `%s`, the statement prescribes `%s`" % ("the last" if key[0] else "a non-last", key[1], show(p), show(w))))
+            if key[0] and r != 0:
+                fs.append(fnd(rule, rv, "the description continues after the last item"))
+            if not key[0] and (r != 1 or i != 1):
+                fs.append(fnd(rule, rv, "a non-last item (items written=%s) is followed by %d recursive call(s) after %d counter increment(s) (expected one of each)" % (key[1], r, i)))
+    # entry: counter starts at 0, message fresh and returned
+    v = View(main)
+    recs = [bb for bb, c in v.calls() if c.fn is not None and c.path == rec.path]
+    if len(recs) == 1:
+        args = v.blocks[recs[0]]["term"]["args"]
+        a1 = strip_refs(canon(v, v.origin(args[1])))
+        a2 = strip_refs(canon(v, v.origin(args[2])))
+        init_ok = a1[0] == "const" and a1[2] == 0
+        if not init_ok and a1[0] in ("multi", "local"):
+            wd = v.whole_defs(a1[1])
+            init_ok = len(wd) == 1 and wd[0][0] == "stmt" and strip_refs(canon(v, v.origin_rv(wd[0][3]["rv"], wd[0][1])))[0] == "const" and strip_refs(canon(v, v.origin_rv(wd[0][3]["rv"], wd[0][1])))[2] == 0
+        if not init_ok:
+            fs.append(fnd(rule, v, "the item counter does not start at 0", recs[0], fmt(a1)))
+        msg_ok = False
+        if a2[0] in ("multi", "local"):
+            wd = v.whole_defs(a2[1])
+            fresh = len(wd) == 1 and wd[0][0] == "call" and call_name(v, ("call", wd[0][1])) == "std::string::String::new"
+            returned = False
+            for x in v.reachable(recs[0]):
+                for st in v.blocks[x]["stmts"]:
+                    if st["k"] == "assign" and st["place"]["l"] == 0 and not st["place"]["p"] and st["rv"]["k"] == "use" and st["rv"]["op"]["k"] in ("move", "copy") and st["rv"]["op"]["place"]["l"] == a2[1]:
+                        returned = True
+            msg_ok = fresh and returned
+        elif a2[0] == "call" and call_name(v, a2) == "std::string::String::new":
+            ml = v.blocks[a2[1]]["term"]["dest"]["l"]
+            for x in v.reachable(recs[0]):
+                for st in v.blocks[x]["stmts"]:
+                    if st["k"] == "assign" and st["place"]["l"] == 0 and not st["place"]["p"] and st["rv"]["k"] == "use" and st["rv"]["op"]["k"] in ("move", "copy") and \
+                            st["rv"]["op"]["place"]["l"] == ml and not st["rv"]["op"]["place"]["p"]:
+                        msg_ok = True
+        if not msg_ok:
+            fs.append(fnd(rule, v, "the message handed to the description is not a fresh string that is then returned", recs[0], fmt(a2)))
+    res.add(rule, 8, fs)
+    if table:
+        res.samples.append({"joiner_table": table})
+
+
+def deep_local(v, t, depth=0):
+    """expand single-definition temporaries inside a term"""
+    if depth > 8 or not isinstance(t, tuple):
+        return t
+    if t and t[0] == "multi":
+        wd = v.whole_defs(t[1])
+        if len(wd) == 1 and wd[0][0] == "stmt":
+            return deep_local(v, v.origin_rv(wd[0][3]["rv"], wd[0][1]), depth + 1)
+        if len(wd) == 1 and wd[0][0] == "call":
+            return deep_local(v, v.origin_call(wd[0][1]), depth + 1)
+        return t
+    return tuple(deep_local(v, x, depth + 1) if isinstance(x, tuple) else x for x in t)
+
+
+_run_table = run
+
+
+def run(ctx):  # noqa: F811
+    res = _run_table(ctx)
+    join_rule(ctx, res)
+    res.assumptions = [a.replace("only the joining punctuation (', ', ' or ', ', or ') is run-time string building and is not decided",
+                                 "the joiner table ('a', 'a or b', 'a, b, or c') is decided by C17.JOIN over (rest empty?, items written in {0,1,>=2})") for a in res.assumptions]
+    res.explanation += (" JOIN: after each step's (phrase, rest) pair the text appended to the message is extracted per case (rest empty?, items already written 0 / 1 / more) "
+                        "and must be phrase | ' or 'phrase | ', or 'phrase for the last item and phrase | ', 'phrase otherwise, with exactly one counter increment and one recursive call (rest, counter, message) for non-last items; "
+                        "the entry point starts the counter at 0 with a fresh message that it returns.")
     return res
